@@ -35,12 +35,14 @@ type Handle interface {
 	Close() error
 	Size() (int64, error)
 	Ino() uint64
+	MTime() int64
 }
 
 type DirEnt struct {
 	Name  string
 	IsDir bool
 	Size  int64
+	MTime int64
 }
 
 type FInfo struct {
@@ -49,6 +51,7 @@ type FInfo struct {
 	IsDir bool
 	Ino   uint64
 	Gen   uint64 // content generation (MemFS: write counter; RealFS: mtime)
+	MTime int64  // modification time, ns on the simulated clock (RealFS: the kernel's mtime)
 }
 
 // ---------------------------------------------------------------- MemFS
@@ -60,6 +63,15 @@ type Inode struct {
 	Data  []byte
 	Gen   uint64 // incremented on every content change
 	Nlink int
+	MTime int64 // simulated clock (ns) at creation / the last content change
+}
+
+// fsNow is the simulated clock as the disk sees it.
+func fsNow() int64 {
+	if G != nil {
+		return G.Now
+	}
+	return 0
 }
 
 type MemFS struct {
@@ -127,6 +139,7 @@ func (fs *MemFS) OpenFile(name string, flag int, perm os.FileMode) (Handle, erro
 		if flag&os.O_TRUNC != 0 && flag&(os.O_WRONLY|os.O_RDWR) != 0 {
 			ino.Data = nil
 			ino.Gen++
+			ino.MTime = fsNow()
 		}
 	} else {
 		if flag&os.O_CREATE == 0 {
@@ -135,7 +148,7 @@ func (fs *MemFS) OpenFile(name string, flag int, perm os.FileMode) (Handle, erro
 		if !fs.parentOK(p) {
 			return nil, pathErr("open", name, syscall.ENOENT)
 		}
-		ino = &Inode{ID: fs.nextIno, Nlink: 1}
+		ino = &Inode{ID: fs.nextIno, Nlink: 1, MTime: fsNow()}
 		fs.nextIno++
 		fs.files[p] = ino
 	}
@@ -234,7 +247,7 @@ func (fs *MemFS) ReadDir(name string) ([]DirEnt, error) {
 		if fs.dirs[full] {
 			res = append(res, DirEnt{Name: n, IsDir: true})
 		} else {
-			res = append(res, DirEnt{Name: n, Size: int64(len(fs.files[full].Data))})
+			res = append(res, DirEnt{Name: n, Size: int64(len(fs.files[full].Data)), MTime: fs.files[full].MTime})
 		}
 	}
 	return res, nil
@@ -278,12 +291,13 @@ func (fs *MemFS) Stat(name string) (FInfo, error) {
 		return FInfo{Name: filepath.Base(p), IsDir: true}, nil
 	}
 	if ino := fs.files[p]; ino != nil {
-		return FInfo{Name: filepath.Base(p), Size: int64(len(ino.Data)), Ino: ino.ID, Gen: ino.Gen}, nil
+		return FInfo{Name: filepath.Base(p), Size: int64(len(ino.Data)), Ino: ino.ID, Gen: ino.Gen, MTime: ino.MTime}, nil
 	}
 	return FInfo{}, pathErr("stat", name, syscall.ENOENT)
 }
 
 func (h *memHandle) Ino() uint64 { return h.ino.ID }
+func (h *memHandle) MTime() int64 { return h.ino.MTime }
 
 func (h *memHandle) Write(b []byte) (int, error) {
 	if h.closed {
@@ -307,6 +321,7 @@ func (h *memHandle) Write(b []byte) (int, error) {
 	copy(h.ino.Data[h.off:], b)
 	h.off = end
 	h.ino.Gen++
+	h.ino.MTime = fsNow()
 	return len(b), nil
 }
 
@@ -386,6 +401,7 @@ func (h *memHandle) Truncate(sz int64) error {
 	copy(nd, h.ino.Data)
 	h.ino.Data = nd
 	h.ino.Gen++
+	h.ino.MTime = fsNow()
 	return nil
 }
 
@@ -453,6 +469,7 @@ func (r *RealFS) ReadDir(n string) ([]DirEnt, error) {
 		d := DirEnt{Name: e.Name(), IsDir: e.IsDir()}
 		if fi, err := e.Info(); err == nil && !e.IsDir() {
 			d.Size = fi.Size()
+			d.MTime = fi.ModTime().UnixNano()
 		}
 		res = append(res, d)
 	}
@@ -465,7 +482,7 @@ func (r *RealFS) Stat(n string) (FInfo, error) {
 	if err != nil {
 		return FInfo{}, r.strip(err)
 	}
-	res := FInfo{Name: fi.Name(), Size: fi.Size(), IsDir: fi.IsDir(), Gen: uint64(fi.ModTime().UnixNano())}
+	res := FInfo{Name: fi.Name(), Size: fi.Size(), IsDir: fi.IsDir(), Gen: uint64(fi.ModTime().UnixNano()), MTime: fi.ModTime().UnixNano()}
 	if st, ok := fi.Sys().(*syscall.Stat_t); ok {
 		res.Ino = st.Ino
 	}
@@ -483,6 +500,12 @@ func (h *realHandle) ReadAt(b []byte, off int64) (int, error) {
 func (h *realHandle) Seek(off int64, wh int) (int64, error) { return h.f.Seek(off, wh) }
 func (h *realHandle) Truncate(sz int64) error               { return h.f.Truncate(sz) }
 func (h *realHandle) Close() error                          { return h.f.Close() }
+func (h *realHandle) MTime() int64 {
+	if fi, err := h.f.Stat(); err == nil {
+		return fi.ModTime().UnixNano()
+	}
+	return 0
+}
 func (h *realHandle) Size() (int64, error) {
 	fi, err := h.f.Stat()
 	if err != nil {
